@@ -7,6 +7,7 @@
 package c15
 
 import (
+	"regexp"
 	"sort"
 	"verif/internal/engineseam"
 
@@ -174,6 +175,17 @@ func positions() []position {
 			wrap: func(x string) string { return `o: {l: [` + x + `]}` }, vtype: func(k string) string { return "String" }},
 		{name: "input object in list", kinds: []string{"string", "int", "null"},
 			wrap: func(x string) string { return "" }, vtype: func(k string) string { return scalarType[k] }},
+		// a single value where a list is expected (input coercion wraps it), at the
+		// top level, below an input object, and as an item of a list of lists that
+		// follows a null item
+		{name: "single value for a list", kinds: []string{"string", "null"},
+			wrap: func(x string) string { return `l: ` + x }, vtype: func(k string) string { return "[String]" }},
+		{name: "single value for a list inside input object", kinds: []string{"string", "null"},
+			wrap: func(x string) string { return `o: {l: ` + x + `, s: "sib"}` }, vtype: func(k string) string { return "[String]" }},
+		{name: "single value after a null item in a list of lists", kinds: []string{"int"},
+			wrap: func(x string) string { return `ll: [null, ` + x + `, [3]]` }, vtype: func(k string) string { return "[Int]" }},
+		{name: "single value for a list after a null item in a list of objects", kinds: []string{"string"},
+			wrap: func(x string) string { return `lon: [{s: "first"}, null, {l: ` + x + `}]` }, vtype: func(k string) string { return "[String]" }},
 		{name: "whole list as value", kinds: []string{"string"},
 			wrap: func(x string) string { return "" }, vtype: func(k string) string { return "[String]" }},
 		{name: "whole object as value", kinds: []string{"string", "int"},
@@ -354,6 +366,18 @@ func buildCases(thorough bool) []tcase {
 
 type fail struct{ clause, site, detail string }
 
+var rejectPos = regexp.MustCompile(`^input:\d+:\d+: `)
+var rejectQuoted = regexp.MustCompile(`"[^"]*"`)
+
+// rejectKind: the reference parser's message without position and names.
+func rejectKind(msg string) string {
+	m := rejectQuoted.ReplaceAllString(rejectPos.ReplaceAllString(firstLine(msg), ""), "_")
+	if len(m) > 70 {
+		m = m[:70]
+	}
+	return m
+}
+
 // normalizedVariables runs the engine's normalization sequence and returns the
 // variables object exposed afterwards.
 func normalizedVariables(schema *graphql.Schema, q string, vars []byte) ([]byte, error) {
@@ -461,6 +485,7 @@ func TestCheck(t *testing.T) {
 		doc, errs := gqlparser.LoadQuery(schema, c.query)
 		if errs != nil {
 			run.Count("not_judged_gqlparser_rejects", 1)
+			run.Count("not_judged_gqlparser_rejects: "+rejectKind(errs.Error()), 1)
 			if rin == nil {
 				run.Sample("rejected-by-gqlparser", map[string]any{"query": c.query, "error": errs.Error()})
 			}
